@@ -99,9 +99,11 @@ func vfRawHdr(tok *ua.NodeID) *ua.RequestHeader {
 
 type vfOp struct {
 	write     bool
-	val       int32
+	val       int64 // register content: an int32 value, or vfNull|status for a DataValue without a value
 	inv, resp int
 }
+
+const vfNull = int64(1) << 40
 
 type vfHist struct {
 	clock int
@@ -111,11 +113,20 @@ type vfHist struct {
 func (h *vfHist) tick() int { h.clock++; return h.clock }
 
 func (c *vfRaw) write(h *vfHist, id *ua.NodeID, v int32) {
-	op := &vfOp{write: true, val: v}
+	c.writeDV(h, id, int64(v), &ua.DataValue{EncodingMask: ua.DataValueValue, Value: ua.MustVariant(v)})
+}
+
+// writeNull writes a DataValue that carries a status but no value
+func (c *vfRaw) writeNull(h *vfHist, id *ua.NodeID, st ua.StatusCode) {
+	c.writeDV(h, id, vfNull|int64(st), &ua.DataValue{EncodingMask: ua.DataValueStatusCode, Status: st})
+}
+
+func (c *vfRaw) writeDV(h *vfHist, id *ua.NodeID, code int64, dv *ua.DataValue) {
+	op := &vfOp{write: true, val: code}
 	h.ops = append(h.ops, op)
 	op.inv = h.tick()
 	r, _ := c.call(&ua.WriteRequest{RequestHeader: vfRawHdr(c.auth),
-		NodesToWrite: []*ua.WriteValue{{NodeID: id, AttributeID: ua.AttributeIDValue, Value: &ua.DataValue{EncodingMask: ua.DataValueValue, Value: ua.MustVariant(v)}}}}).(*ua.WriteResponse)
+		NodesToWrite: []*ua.WriteValue{{NodeID: id, AttributeID: ua.AttributeIDValue, Value: dv}}}).(*ua.WriteResponse)
 	op.resp = h.tick()
 	vfAssert(r != nil && len(r.Results) == 1 && r.Results[0] == ua.StatusOK, "a write of the shared node fails")
 }
@@ -127,18 +138,22 @@ func (c *vfRaw) read(h *vfHist, id *ua.NodeID) {
 	r, _ := c.call(&ua.ReadRequest{RequestHeader: vfRawHdr(c.auth),
 		NodesToRead: []*ua.ReadValueID{{NodeID: id, AttributeID: ua.AttributeIDValue, DataEncoding: &ua.QualifiedName{}}}}).(*ua.ReadResponse)
 	op.resp = h.tick()
-	vfAssert(r != nil && len(r.Results) == 1 && r.Results[0] != nil && r.Results[0].Value != nil, "a read of the shared node fails")
-	v, ok := r.Results[0].Value.Value().(int32)
-	vfAssert(ok, "a read of the shared node returns a value of another type")
-	op.val = v
+	vfAssert(r != nil && len(r.Results) == 1 && r.Results[0] != nil, "a read of the shared node fails")
+	if dv := r.Results[0]; dv.Value == nil || dv.Value.Value() == nil {
+		op.val = vfNull | int64(dv.Status)
+	} else {
+		v, ok := dv.Value.Value().(int32)
+		vfAssert(ok, "a read of the shared node returns a value of another type")
+		op.val = int64(v)
+	}
 }
 
 // linearizable: some total order extending the real-time order in which every read returns the
 // value of the latest preceding write (or the initial value).
-func vfLinearizable(ops []*vfOp, init int32) bool {
+func vfLinearizable(ops []*vfOp, init int64) bool {
 	used := make([]bool, len(ops))
-	var rec func(done int, cur int32) bool
-	rec = func(done int, cur int32) bool {
+	var rec func(done int, cur int64) bool
+	rec = func(done int, cur int64) bool {
 		if done == len(ops) {
 			return true
 		}
@@ -200,6 +215,9 @@ func VerifH_C34_Linearizable() {
 		case 2:
 			a.write(h, id, x)
 			a.write(h, id, y)
+		case 3: // a value, then a status without a value (e.g. a sensor failure)
+			a.write(h, id, x)
+			a.writeNull(h, id, ua.StatusBadSensorFailure)
 		}
 		done <- true
 	}()
@@ -211,7 +229,7 @@ func VerifH_C34_Linearizable() {
 		case 1:
 			b.write(h, id, y)
 			b.read(h, id)
-		case 2:
+		case 2, 3:
 			b.read(h, id)
 			b.read(h, id)
 		}
